@@ -12,7 +12,7 @@ using namespace vp;
 #ifndef NT
 #define NT 2
 #endif
-#define MAXW (K + 2)
+#define MAXW (K + 4)
 
 namespace {
 
@@ -190,6 +190,19 @@ extern "C" int harness_main()
 	for (int i = 0; i < NT; ++i) g_t[i] = new (g_store[i]) asio::high_resolution_timer(ios);
 	g_unit = vp_sym_long(1, 1000000000L);
 
+#ifdef TIES
+	// preset: both timers armed for the same instant u with waits outstanding, then K symbolic operations
+	for (int t = 0; t < 2; ++t)
+	{
+		g_t[t]->expires_at(time_point(duration(g_unit)));
+		g_m[t].expiry = g_unit; g_m[t].arm_seq = g_seq++; g_m[t].armed_cancelled = false;
+		int const id = g_nw++;
+		model_wait& w = g_w[id];
+		w.timer = t; w.wstart = 0; w.expiry = g_unit; w.arm_seq = g_m[t].arm_seq; w.state = 0; w.maybe_aborted = false; w.due_at_start = false;
+		g_m[t].waiting = true; g_m[t].wid = id;
+		g_t[t]->async_wait([id](error_code const& ec) { on_wait(id, ec); });
+	}
+#endif
 	int const outside = vp_choose(2) == 0 ? K : 1;
 	for (int i = 0; i < outside; ++i) next_op();
 	s.run();
